@@ -441,7 +441,9 @@ class C04(Prop):
     def gens_random(self, tier, rnd):
         gens = []
         names = [n for n in shapes() if n not in ("tagify_str",)]
-        payloads = list(gamma.HOSTILE) + ["<b>bold</b> &amp; <i>it</i>\n<p>x</p>", "a < b && c > d", "\r\n\t <x y='z'>"]
+        payloads = list(gamma.HOSTILE) + ["<b>bold</b> &amp; <i>it</i>\n<p>x</p>", "a < b && c > d", "\r\n\t <x y='z'>",
+                                          # backslashes (JS string escapes, regular expressions, Windows paths, template groups)
+                                          "var s = 'a\\nb'; /\\d+\\1/", "C:\\dir\\new", "\\g<0> \\1 \\\\"]
         for p in payloads:
             gens.append({"kind": "html_child", "s": cps(p), "shape": "tagify_str"})    # tagify() handing back a bare HTML()
             for nm in names:
